@@ -28,3 +28,7 @@ def _repl_k_value(src):
 
 
 const("repl_k_value", "ant-networking/src/driver.rs", _repl_k_value)
+
+# get_replicate_candidates (ant-networking/src/cmd.rs) falls back to the CLOSE_GROUP_SIZE nearest peers
+const("repl_close_group_size", "ant-protocol/src/lib.rs",
+      r"pub const CLOSE_GROUP_SIZE: usize = ([\d_]+);")
